@@ -1,6 +1,6 @@
 \* reference configuration (checks/c14.py generates the same text; thorough uses VIEW ViewFull)
 SPECIFICATION Spec
-INVARIANTS Agree RepIgnored CapOK EraseOK OnlyContribution TrapRule
+INVARIANTS Agree RepIgnored SymTextOK CapOK EraseOK OnlyContribution TrapRule
 PROPERTIES PostStable
 VIEW View
 CHECK_DEADLOCK FALSE
